@@ -174,14 +174,16 @@ def run_fuzz(spec):
 
     from .core import REPO, VERIF
 
-    _, modname, seed, shard, runs, max_n, mode = spec
+    import json
+
+    modname, shard = spec[1], spec[3]
     work = VERIF / ".work"
     work.mkdir(exist_ok=True)
     fd, out = tempfile.mkstemp(prefix=f"fuzz-{modname.split('.')[-1]}-{shard}-", suffix=".pkl", dir=work)
     os.close(fd)
     env = dict(os.environ, PYTHONPATH=f"{REPO}:{VERIF}", PYTHONHASHSEED="0", PYTHONDONTWRITEBYTECODE="1", VERIF_REPO=str(REPO))
     try:
-        p = subprocess.run([sys.executable, "-m", "vpbt.fuzz_child", modname, str(seed), str(shard), str(runs), str(max_n), out, mode], cwd=VERIF, env=env, capture_output=True, text=True)
+        p = subprocess.run([sys.executable, "-m", "vpbt.fuzz_child", json.dumps(list(spec)), out], cwd=VERIF, env=env, capture_output=True, text=True)
         if p.returncode == 3:
             col = Collector()
             col.count("fuzz_skipped_no_atheris")
